@@ -99,7 +99,7 @@ def gen_life(rng, exe):
     return "\n".join(lines) + "\n", expect, forbid, kinds_used
 
 
-CLOSES_EVERYTHING = {"connect-refused", "connect-refused-unix", "pipe-transfer", "spawn-wait", "spawn-pipes-wait", "spawn-failed"}
+CLOSES_EVERYTHING = {"connect-refused", "connect-refused-unix", "listen-bind-fails", "listen-port-in-use", "pipe-transfer", "spawn-wait", "spawn-pipes-wait", "spawn-failed"}
 
 CYCLE_PRELUDE = r'''
 (def N (scan-number (get (dyn :args) 1)))
@@ -158,6 +158,8 @@ CYCLES = {
     "spawn-cancelled-wait": "(bench (fn [] (def p (os/spawn [\"/bin/sleep\" \"0.03\"] :p {:out :pipe})) (try (ev/with-deadline 0.005 (os/proc-wait p)) ([e] nil)) (ev/sleep 0.04)))",
     "connect-refused": "(bench (fn [] (try (net/connect \"127.0.0.1\" \"1\") ([e] nil))))",
     "connect-refused-unix": "(bench (fn [] (try (net/connect :unix \"/nonexistent-dir-xyz/sock\") ([e] nil))))",
+    "listen-bind-fails": "(bench (fn [] (try (net/listen \"192.0.2.1\" \"8081\") ([e] nil)) (try (net/listen :unix \"/nonexistent-dir-xyz/s\") ([e] nil))))",
+    "listen-port-in-use": "(def L (net/listen \"127.0.0.1\" \"0\" :stream true)) (def [_ P] (net/localname L)) (bench (fn [] (try (net/listen \"127.0.0.1\" (string P) :stream true) ([e] nil))))",
     "spawn-failed": "(bench (fn [] (try (os/spawn [\"/nonexistent-program-xyz\"] :p {:out :pipe :err :pipe :in :pipe}) ([e] nil))))",
     "channel-traffic": "(def ch (ev/chan 2)) (bench (fn [] (ev/spawn (ev/give ch @[1 2 3])) (ev/take ch)))",
     "thread-channel-traffic": "(def a (ev/thread-chan 4)) (def b (ev/thread-chan 4)) (ev/thread (fn [&] (forever (def m (ev/take a)) (when (= m :stop) (break)) (ev/give b m))) nil :n) (bench (fn [] (ev/give a @{:k [1 2 3]}) (ev/take b)))",
